@@ -31,6 +31,19 @@ COLLECTION_TYPES = {
 }
 
 
+def flag_kwargs(op, case_sensitive, merge):
+    """Keyword flags of an add call; a flag that equals its documented default (case_sensitive=True,
+    merge=False) is left out when the op says so - callers rely on the defaults too."""
+    if not op.get("omit_defaults"):
+        return {"case_sensitive": case_sensitive, "merge": merge}
+    kw = {}
+    if case_sensitive is not True:
+        kw["case_sensitive"] = case_sensitive
+    if merge is not False:
+        kw["merge"] = merge
+    return kw
+
+
 def gen_valid_records(rng, curie_pool, uri_pool, n, with_pattern=True, max_syn=2):
     """A strict-valid record set over the pools (tokens used at most once)."""
     cp = list(curie_pool)
@@ -67,7 +80,7 @@ class C05Machine(Machine):
         "merge_adds_uri_synonym_only", "merge_keeps_pattern", "merge_into_start_built", "same_object_twice",
         "empty_prefix_token", "empty_uri_prefix_token", "start_from_chain", "start_from_subconverter",
         "retry_rejected_now_accepted", "retry_rejected_again_rejected", "other_side_of_rejected_appended", "other_side_of_rejected_merged_elsewhere",
-        "start_from_reconciliation", "submission_with_own_case_variants", "large_converter",
+        "start_from_reconciliation", "submission_with_own_case_variants", "large_converter", "flag_left_to_its_default", "big_submission",
     ]
 
     @classmethod
@@ -148,6 +161,7 @@ class C05Machine(Machine):
         if force_merge:
             op["merge"] = True
             op["case_sensitive"] = True
+        op["omit_defaults"] = rng.random() < 0.5
         if rel == "same_object" and kind == "add_record" and self.last_record_dump is not None:
             op["same_object"] = True
             op["record"] = copy.deepcopy(self.last_record_dump)
@@ -294,6 +308,11 @@ class C05Machine(Machine):
                     rec["prefix_synonyms"].append(take(fresh_c, cfg["curie_pool"]))
                 if fresh_u and rng.random() < 0.6:
                     rec["uri_prefix_synonyms"].append(take(fresh_u, cfg["uri_pool"]))
+        if rel not in ("identical", "invalid") and rng.random() < 0.05:
+            # a big submission: many synonyms on both sides (invented names, never clashing)
+            n = self.steps
+            rec["prefix_synonyms"] += [f"bs{n}_{i}" for i in range(rng.choice([5, 8, 12]))]
+            rec["uri_prefix_synonyms"] += [f"bs:{n}/{i}/" for i in range(rng.choice([5, 8, 12]))]
         if rel != "identical" and rng.random() < 0.2:
             # spellings of the submission's own tokens that differ only by case
             if rng.random() < 0.5:
@@ -453,7 +472,7 @@ class C05Machine(Machine):
                     robj = c.Record(**rd)
                 self.last_record_obj = robj
                 self.last_record_dump = copy.deepcopy(rd)
-                conv.add_record(robj, case_sensitive=cs, merge=merge)
+                conv.add_record(robj, **flag_kwargs(op, cs, merge))
             else:
                 coll = COLLECTION_TYPES[op.get("coll", "list")]
                 kw = {}
@@ -462,7 +481,7 @@ class C05Machine(Machine):
                 if rd["uri_prefix_synonyms"] or op.get("coll", "list") != "omit":
                     kw["uri_prefix_synonyms"] = coll(rd["uri_prefix_synonyms"])
                 self.probe("coll_" + op.get("coll", "list"))
-                conv.add_prefix(rd["prefix"], rd["uri_prefix"], case_sensitive=cs, merge=merge, **kw)
+                conv.add_prefix(rd["prefix"], rd["uri_prefix"], **flag_kwargs(op, cs, merge), **kw)
         except Exception as e:  # noqa: BLE001
             err = e
 
@@ -471,6 +490,8 @@ class C05Machine(Machine):
         outcome, target = self.model.add(mrec, cs, merge)
         self.event(op["op"])
         self.event("model_" + outcome)
+        if op.get("omit_defaults") and (cs is True or merge is False):
+            self.probe("flag_left_to_its_default")
         post_focus = observe.answers(conv, fstrings, fpairs, full=False)   # the first lookups after the call
         post = self._snapshot()
 
@@ -521,6 +542,8 @@ class C05Machine(Machine):
                 self.probe("submission_with_own_case_variants")
             if len(self.model.records) >= 20:
                 self.probe("large_converter")
+            if len(mrec.prefix_synonyms) >= 5:
+                self.probe("big_submission")
             if "" in mrec.all_prefixes():
                 self.probe("empty_prefix_token")
             if "" in mrec.all_uri_prefixes():
